@@ -66,8 +66,9 @@ ExpKind(x) == IF IsDirEnt(x) THEN "dir" ELSE IF x.type = "symlink" THEN "link"
 
 InPayload(f, x) == IF f = "rpm" THEN x.type # "implicit dir" ELSE x.type # "ghost"
 \* an rpm never lists the root directory itself (the rpm library drops an entry named "/": rpm does not allow one);
-\* the tar-based formats write it as "./"
-InPayloadK(f, m, k) == InPayload(f, m[k]) /\ ~(f = "rpm" /\ KeyPath(k) = <<>>)
+\* deb and ipk write it as "./"; apk and archlinux name members relative to the root without a prefix, where the root
+\* itself has no name: no member (a member with an empty name is no well-formed archive)
+InPayloadK(f, m, k) == InPayload(f, m[k]) /\ ~(f \in {"rpm", "apk", "archlinux"} /\ KeyPath(k) = <<>>)
 
 (* ---- C01: payload fidelity ---------------------------------------------- *)
 PayloadClauses(f, c, tree, m, evs) ==
